@@ -32,11 +32,16 @@ def confirm(name, wt, out):
     demo = os.path.join(out, "demo.py")
     rc_with, o_with = sh("%s %s" % (PY, demo), cwd=out, env=env)
     rc_t, o_t = sh("%s -m pytest -q -p no:cacheprovider -n 8 2>&1 | tail -4" % PY, cwd=wt)
-    sh("git stash", cwd=wt)
+    # (not `git stash`: the stash is shared between worktrees)
+    tmp_patch = os.path.join(out, ".confirm.patch")
+    with open(tmp_patch, "w") as f:
+        f.write(diff)
+    sh("git checkout -- .", cwd=wt)
     try:
         rc_without, o_without = sh("%s %s" % (PY, demo), cwd=out, env=env)
     finally:
-        sh("git stash pop", cwd=wt)
+        sh("git apply %s" % tmp_patch, cwd=wt)
+        os.unlink(tmp_patch)
     ok = rc_with != 0 and rc_without == 0 and "54 passed" in o_t
     print("demo with change: rc=%d  %s" % (rc_with, o_with.strip().splitlines()[-1:] ))
     print("demo without   : rc=%d  %s" % (rc_without, o_without.strip().splitlines()[-1:]))
